@@ -24,7 +24,9 @@ RULE = (
     "generated target modules with the named definition placed before / between / after other statements (imports, "
     "constants, annotated assignments, helper functions sharing parameter names with the target, classes with same-named "
     "methods, nested classes, __main__ block), with and without trailing newline, for every target kind and pre-state "
-    "(cycled) and method targets with sibling members; one evaluation = one sync run + masked-AST comparison of every "
+    "(cycled) and method targets with sibling members; file endings none/space/tab/unterminated blank line/two "
+    "newlines; a third of the API cases run a second sync in the same process after a hand edit of every target and "
+    "a changed truth; one evaluation = one sync run + masked-AST comparison of every "
     "target file that existed before; non-trivial = the file had at least one other statement; distinct = distinct "
     "(truth, pre-states, method, statement kinds around the target)"
 )
